@@ -102,16 +102,21 @@ pub fn char_downcase(vm: &mut Vm) -> Result<VCell, Error> {
     }
 }
 
+/// The case folded image of c, as char-foldcase returns it
+fn foldcase(c: char) -> char {
+    if c.is_ascii() {
+        c.to_ascii_lowercase()
+    } else if c.to_lowercase().count() == 1 {
+        c.to_lowercase().next().unwrap()
+    } else {
+        c
+    }
+}
+
 pub fn char_foldcase(vm: &mut Vm) -> Result<VCell, Error> {
     pop_argc(vm, 1, Some(1), "char-foldcase")?;
     let c = pop_char(vm)?;
-    if c.is_ascii() {
-        Ok(c.to_ascii_lowercase().into())
-    } else if c.to_lowercase().count() == 1 {
-        Ok(c.to_lowercase().next().unwrap().into())
-    } else {
-        Ok(c.into())
-    }
+    Ok(foldcase(c).into())
 }
 
 pub fn digit_value(vm: &mut Vm) -> Result<VCell, Error> {
@@ -145,30 +150,30 @@ pub fn char_gt_eq(vm: &mut Vm) -> Result<VCell, Error> {
 }
 
 pub fn char_ci_eq(vm: &mut Vm) -> Result<VCell, Error> {
-    char_comp(vm, "char-ci=?", |x, y| x.eq_ignore_ascii_case(y))
+    char_comp(vm, "char-ci=?", |x, y| foldcase(*x) == foldcase(*y))
 }
 
 pub fn char_ci_lt(vm: &mut Vm) -> Result<VCell, Error> {
     char_comp(vm, "char-ci<?", |x, y| {
-        x.to_ascii_lowercase() < y.to_ascii_lowercase()
+        foldcase(*x) < foldcase(*y)
     })
 }
 
 pub fn char_ci_lt_eq(vm: &mut Vm) -> Result<VCell, Error> {
     char_comp(vm, "char-ci<=?", |x, y| {
-        x.to_ascii_lowercase() <= y.to_ascii_lowercase()
+        foldcase(*x) <= foldcase(*y)
     })
 }
 
 pub fn char_ci_gt(vm: &mut Vm) -> Result<VCell, Error> {
     char_comp(vm, "char-ci>?", |x, y| {
-        x.to_ascii_lowercase() > y.to_ascii_lowercase()
+        foldcase(*x) > foldcase(*y)
     })
 }
 
 pub fn char_ci_gt_eq(vm: &mut Vm) -> Result<VCell, Error> {
     char_comp(vm, "char-ci>=?", |x, y| {
-        x.to_ascii_lowercase() >= y.to_ascii_lowercase()
+        foldcase(*x) >= foldcase(*y)
     })
 }
 
